@@ -171,7 +171,10 @@ def run(prop, tier=None, replay=None):
                 rl.append("include %s%s%s" % (q1, nm, q2))
         for d in ("#include \"%s" % longn, "#include <%s" % longn, "#define " + "A" * 60 + "(", "#if " + "(" * 40, "#ifdef", "# " + "9" * 30, "#line 3 \"" + "x" * 50,
                   "!$ " + "x" * 70 + " = 1 &", "!$omp" + " p" * 40, "c$ x = 1", "*$ x = 1", "1234567 x = 1", "12345 nm_" + "z" * 70 + ": do i = 1, 2", "nm : : do",
-                  "x = 'a" + "b" * 80 + " &", "x = 1 &", "&", "& &", "x = 1; ; ; y = 2", ";", "x = 1 ;"):
+                  "x = 'a" + "b" * 80 + " &", "x = 1 &", "&", "& &", "x = 1; ; ; y = 2", ";", "x = 1 ;",
+                  # Hollerith items (an extension that is on by default): counts with blanks, too long, too short, zero
+                  "100 format(1 2Habc, i3)", "100 format(1 2Habcdefghijkl, i3)", "100 format(9Hab)", "100 format(0H, i3)", "100 format(2 Hab, 3Hcde)",
+                  "call s(3Habc, 2 Hab)", "data x /4Habcd/", "x = F2PY_EXPR_TUPLE_7 + _F2PY_STRING_CONSTANT_1_", "real :: x :: y", "integer :: :: a"):
             rl.append(d)
         for k, line in enumerate(rl):
             for wn, w in (wraps[0], wraps[2]) if tier == "quick" else wraps[:4]:
